@@ -24,7 +24,7 @@ from vf.sym import MV, SymName, SymRef, SymInt, SymBool, SymDict, NONEVAL, PyExc
 from vf.spec import Z3Ops, P, View, CallShape, PO, POK, VP, KWO, VK
 from vf.interp import Interp, Inst, IClass
 from vf.harness import VC, mk_sig, mk_call, sig_view, pview, run_unit
-from .common import clause, name_term, ua_denotes, stands_of, install_concile_summary, ua_follows_goal, ua_return_goal
+from .common import FRAME_PROPS, clause, name_term, ua_denotes, stands_of, install_concile_summary, ua_follows_goal, ua_return_goal
 from .merge import exc_is, src_entries, key_eq, sym_sig_data, real_sig_data
 from .mask import flag_value, same_params_term
 
@@ -43,8 +43,8 @@ C_UA = clause(U, 'post:ua_follows', ['C11'], 'B')
 C_SRC_WF = clause(U, 'post:sources_wf', ['C08'], 'B')
 C_SRC_EXACT = clause(U, 'post:sources_exact', ['C08'], 'B')
 C_DEPTHS = clause(U, 'post:depths', ['C08'], 'B')
-C_FRAME = clause(U, 'frame:inputs_unchanged', ['C16', 'C08'], 'B')
-C_FRESH = clause(U, 'frame:fresh_sources', ['C16', 'C08'], 'B')
+C_FRAME = clause(U, 'frame:inputs_unchanged', FRAME_PROPS, 'B')
+C_FRESH = clause(U, 'frame:fresh_sources', FRAME_PROPS, 'B')
 
 
 def forwarded_call(call, outer_view, uv, uk):
